@@ -588,6 +588,11 @@ func (g *G) Mutate(src string) (string, string) {
 			n, _ := strconv.Atoi(t.lit)
 			return repl(strconv.Itoa(n + 1)), "literal"
 		case t.tok == token.STRING:
+			// half of the edits differ from the original in an underscore only (S283: literals compared "without digit
+			// separators"); which half is decided by the position, so the random stream of every workload stays as it was
+			if (t.pos+len(src))%2 == 0 && len(t.lit) >= 2 {
+				return repl(t.lit[:1] + "_" + t.lit[1:]), "literal"
+			}
 			if strings.HasPrefix(t.lit, "\"") {
 				return repl("\"z" + t.lit[1:]), "literal"
 			}
